@@ -20,8 +20,10 @@ CLAIMS = {
         "Every history of <=2 (thorough: <=3) calls over 23 concrete compile/decompile calls is replayed in a fresh process under a deterministic "
         "lowest-free id allocator; the cache events recorded through the guarded hooks are validated by TLC against the model's transition relation "
         "(a stale hit or a store into a missing bucket is not an action) and the observed call's digest must equal its fresh-process digest; convert() "
-        "must not alter its argument.",
-   ref="§3 C11", technique="TLC model checking of the cache/id-reuse model + TLC trace validation of hook-recorded cache events from replayed histories",
+        "must not alter its argument (also: convert() twice on the same operation objects for every special-syntax opcode family). CacheDesign.tla is "
+        "the same design without bounds: TLC exhaustively for 3 ids x 2 keys in every run; in the thorough tier a TLAPS proof of Spec => []CacheTransparent "
+        "for arbitrary Ids and Keys and Apalache's inductive-invariant check, each with the deviation as vacuity guard.",
+   ref="§3 C11, §A", technique="TLC model checking of the cache/id-reuse model (plus TLAPS proof / Apalache inductive invariant of its unbounded form) + TLC trace validation of hook-recorded cache events from replayed histories",
    note="bounded model (2 ids, 2 keys, 3-4 calls); histories over a fixed alphabet of calls incl. witnesses projected from the model's counterexample; lowest-free id reuse"),
  "C15": dict(
    text="Both commands are run as subprocesses. CliContract.tla is the contract as a state machine (RunCompile: exit 0 iff the API accepts; "
@@ -91,9 +93,10 @@ CLAIMS = {
    text="For every well-formed routine set of the bounded families (all flow graphs <=4 ops over a 9-kind alphabet, every opcode family "
         "with special syntax, random graphs, renumbered compile results, re-laid-out variants whose equivalence TLC checks first) the "
         "decompiled text is parsed to a node table and TLC model-checks (a) text-by-ExpsSemantics x input and (b) recompiled x input "
-        "(ByteEquiv.tla) on the SSB machine for every outcome of every test, plus routine tables; WellFormed is re-checked in the spec.",
+        "(ByteEquiv.tla) on the SSB machine for every outcome of every test, plus routine tables; WellFormed is re-checked in the spec. The decompiler's "
+        "first step (offsets -> labels) is recorded and refinement-checked on its own (CompilerPipeline.tla, resolver mode; evidence only).",
    ref="§3 C02", technique="TLC model checking of two lock-step products (source semantics x input bytecode, input x recompiled bytecode) on recorded decompiler output",
-   note="bounded families; nine listed known findings (input shapes the decompiler mishandles) are suppressed by shape signature; timeouts/raises/fallbacks belong to C06"),
+   note="bounded families; ten listed known findings (input shapes the decompiler mishandles) are suppressed by shape signature; timeouts/raises/fallbacks belong to C06"),
  "C06": dict(
    text="Every convert() call on the well-formed families of C02 plus hand-built unstructurable graphs is recorded as an outcome trace and "
         "validated by TLC against DecompOutcome.tla (Start->Structured | Start->Abort->Fallback->Recompiled; no Raised action; marker "
@@ -124,7 +127,8 @@ CLAIMS = {
    text="TLC model-checks, for every accepted program of a bounded enumerated family (every construct shape in one-hole contexts, "
         "pairwise nesting, label/jump/call graphs, all surface forms) plus random programs, the lock-step product of the source "
         "semantics (ExpsSemantics.tla, ExpsForms.tla) with the SSB machine running the ops the real compiler produced "
-        "(CompileEquiv.tla): every path for every outcome of every test, plus the routine table.",
+        "(CompileEquiv.tla): every path for every outcome of every test, plus the routine table. For a sample the four stages of compile()'s back "
+        "half are recorded and TLC checks pass by pass that each refines its input (CompilerPipeline.tla): this names the pass to blame, the verdict stays with the product.",
    ref="§2, §3 C01", technique="TLC model checking of the source-semantics x compiled-bytecode product (explicit TLA+ spec)",
    note="bounded program family + random sampling; tests uninterpreted; Call as two-way test; plain literals; the ANTLR grammar is trusted for syntax when building the node table"),
  "C07": dict(
